@@ -1,4 +1,4 @@
 From Coq Require Import ExtrOcamlBasic.
-From ChibiV Require Import Common.ExtractBase C19.Prims C19.Base64 C19.Base64Stream C19.IntCodec C19.Json C19.QP C19.Uri C19.Csv C19.Half Gen.C19_HalfFns.
+From ChibiV Require Import Common.ExtractBase C19.Prims C19.Base64 C19.Base64Stream C19.IntCodec C19.Json C19.JsonNum C19.QP C19.Uri C19.Csv C19.Half Gen.C19_HalfFns.
 Extraction "model.ml" ext_base b64_encode b64_decode b64_stream_decode b64_stream_encode b64_header encode_int decode_int bv_ref bv_set json_read jwrite utf8_val qp_loop MAXCOL SEP qp_encode qp_decode qp_dec uri_encode uri_dec
-  csv_write csv_read gen_half_to_double gen_double_to_half quarter_to_double double_to_quarter isnan64.
+  csv_write csv_read gen_half_to_double gen_double_to_half quarter_to_double double_to_quarter isnan64 num_accept.
